@@ -194,11 +194,17 @@ Fixpoint insert_sorted (e : edge) (l : list edge) : list edge :=
   end.
 Definition sort_edges (l : list edge) : list edge := fold_right insert_sorted [] l.
 
+(* the static view of a graph assembled in insertion order *)
+Definition static_view (g : cfg) : cfg :=
+  mkcfg (g_blocks g) (sort_edges (g_edges g)) (g_next_index g) (g_entry g) (g_exit g).
+(* the executable side condition under which C15's merge theorems apply (Cfg/MergeLift.v cfg_inv_sinv) *)
+Definition merge_ready (g : cfg) : bool :=
+  cfg_inv g && (0 <=? g_next_index g) && forallb (fun b => 0 <=? b_next b) (g_blocks g).
+
 (* translate_function_extended, complete *)
 Definition recover_full (tb : tbtable) (fa : Z) (manual : list medge_m) : res func :=
   f <- recover tb fa manual ;;
-  let g := f_cfg f in
-  match s_merge (mkcfg (g_blocks g) (sort_edges (g_edges g)) (g_next_index g) (g_entry g) (g_exit g)) with
+  match s_merge (static_view (f_cfg f)) with
   | (g', Ok _) => Ok (mkfunc fa g' None)
   | (_, Err e) => Err e
   | (_, Panic) => Panic
